@@ -35,6 +35,10 @@ pub struct Case {
     /// v5: the peer refuses the publishes with odd packet ids with a negative PUBREC (0x87)
     #[serde(default)]
     pub neg: bool,
+    /// while the exchanges are open a further exactly-once send asks for the packet id of the first one (caller-chosen id):
+    /// it is refused with PacketIdInUse and must not touch the exchange that owns the id
+    #[serde(default)]
+    pub collide: bool,
 }
 
 fn fail(c: &Case, rule: &str, detail: String) -> Failure {
@@ -71,6 +75,15 @@ pub async fn run_case(c: Case) -> Result<CaseInfo, Failure> {
         }
     }
 
+    if c.collide {
+        let before = w.slots.len();
+        w.force_send_own(SendKind::Qos2, ids[0] as u8);
+        match w.slots.get(before).and_then(|s| s.result.clone()) {
+            Some(SendRes::Err(SendErr::PacketIdInUse(id))) if id == ids[0] => {}
+            other => return Err(fail(&c, "colliding-send", format!("an exactly-once send asking for the in-use packet id {} ended as {other:?}", ids[0]))),
+        }
+        w.apply(Op::Settle).await.map_err(e)?;
+    }
     let mut released_order: Vec<usize> = Vec::new();
     let mut rel_slot: Vec<Option<usize>> = vec![None; m];
     let mut both_between = false;
@@ -284,10 +297,13 @@ pub fn run(ctx: &Ctx, started: Instant) -> i32 {
                             if m == 4 && qos1 > 1 && flags & 3 != 0 {
                                 continue; // keep the thorough space in bounds
                             }
-                            work.push(Case { role, m, qos1, rec_batch: flags & 1 != 0, poll_between: flags & 2 != 0, rel_order: perm.clone(), drop_mask, comp_batch: flags & 4 != 0, pipelined, tight: false, neg: false });
-                            work.push(Case { role, m, qos1, rec_batch: flags & 1 != 0, poll_between: flags & 2 != 0, rel_order: perm.clone(), drop_mask, comp_batch: flags & 4 != 0, pipelined, tight: true, neg: false });
+                            work.push(Case { role, m, qos1, rec_batch: flags & 1 != 0, poll_between: flags & 2 != 0, rel_order: perm.clone(), drop_mask, comp_batch: flags & 4 != 0, pipelined, tight: false, neg: false, collide: false });
+                            work.push(Case { role, m, qos1, rec_batch: flags & 1 != 0, poll_between: flags & 2 != 0, rel_order: perm.clone(), drop_mask, comp_batch: flags & 4 != 0, pipelined, tight: true, neg: false, collide: false });
+                            if m == 2 && qos1 < 2 {
+                                work.push(Case { role, m, qos1, rec_batch: flags & 1 != 0, poll_between: flags & 2 != 0, rel_order: perm.clone(), drop_mask, comp_batch: flags & 4 != 0, pipelined, tight: false, neg: false, collide: true });
+                            }
                             if role.is_v5() && (m < 4 || flags & 3 == 0) {
-                                work.push(Case { role, m, qos1, rec_batch: flags & 1 != 0, poll_between: flags & 2 != 0, rel_order: perm.clone(), drop_mask, comp_batch: flags & 4 != 0, pipelined, tight: flags & 1 != 0, neg: true });
+                                work.push(Case { role, m, qos1, rec_batch: flags & 1 != 0, poll_between: flags & 2 != 0, rel_order: perm.clone(), drop_mask, comp_batch: flags & 4 != 0, pipelined, tight: flags & 1 != 0, neg: true, collide: false });
                             }
                         }
                     }
@@ -304,7 +320,7 @@ pub fn run(ctx: &Ctx, started: Instant) -> i32 {
     let report = Report {
         level: "exploration",
         rule: format!(
-            "exhaustive: m = 2..={max_m} concurrent send_exactly_once x every release order x every release/drop mask x PUBRECs one per write or batched x polls between PUBRECs x PUBCOMPs singly or batched x pipelined or phased schedule x (v5) the peer refusing the odd packet ids with a negative PUBREC x send window with two slots to spare or exactly full x \
+            "exhaustive: m = 2..={max_m} concurrent send_exactly_once x every release order x every release/drop mask x PUBRECs one per write or batched x polls between PUBRECs x PUBCOMPs singly or batched x pipelined or phased schedule x (v5) the peer refusing the odd packet ids with a negative PUBREC x a refused send asking for the packet id of the first exchange (m = 2) x send window with two slots to spare or exactly full x \
              QoS 1 send before / after the QoS 2 sends / after the PUBRECs, for v3/v5 servers and clients ({} schedules). The peer answers in order of receipt. Oracle: every send resolves with the receipt of its own id; no release fails with UnexpectedRelease; \
              each release or drop writes exactly one PUBREL with its own id (after a negative PUBREC also accepted: no PUBREL and the slot given back at once); a release completes exactly when its own PUBCOMP was delivered; at the end everything completed, connection alive, credit() == limit. \
              Non-trivial = >= 2 exchanges simultaneously between PUBREC and PUBCOMP (or pipelined); distinct = the schedule",
